@@ -30,45 +30,19 @@ def run_moves(res, ast, rules=("PROBE-DIR", "UNSAFE-TWIN", "WIN-ENTRY", "BC-BRAN
         res.rule("PROBE-DIR", "scanl/movl probe with checkl (lower edge, min_accessed), scanr/movr with checkr (upper edge, "
                  "max_accessed); the probe sees the moved pointer and its result becomes the tape pointer", floor=6, what="probe sites")
     if "UNSAFE-TWIN" in rules:
-        res.rule("UNSAFE-TWIN", "in scanl/scanr/movl/movr the unchecked variant is the checked one minus the probe: one "
-                 "shared loop condition, the same shift word, `mem.offset(shift)` instead of `check?(cxt, mem.wrapping_offset(shift))`",
-                 floor=4, what="ops")
+        res.rule("UNSAFE-TWIN", "scanl/scanr/movl/movr evaluated in both modes (pointers as entry + offset, loops by affine induction): the same cells are "
+                 "tested (entry + cond + k*shift), the same pointer is handed on (entry + K*shift, resp. entry + shift), no stale pointer is used after a "
+                 "probe; the unchecked mode performs no probe", floor=4, what="ops")
     if "WIN-ENTRY" in rules:
         res.rule("WIN-ENTRY", "enter_ops, checkl, checkr, enter_jit_code (and the LLVM twin) call "
                  "make_accessible(min_accessed, max_accessed + 1) before unchecked code runs", floor=4, what="entry sites")
     if "BC-BRANCH" in rules:
         res.rule("BC-BRANCH", "brz branches iff the condition cell is zero, brnz iff it is non-zero; the untaken side falls "
                  "through to the next op", floor=2, what="branch ops")
-    # ---- movers (structural patterns: independent of local names and formatting)
+    # ---- movers: abstract evaluation with affine induction (lib/scanops.py)
     import pm
-    MOVE = "if SAFE { __v_mem = __v_chk(__v_cxt, __v_mem.wrapping_offset(__v_shift)); } else { __v_mem = __v_mem.offset(__v_shift); }"
-    for name, chk, looped in (("scanl", "checkl", True), ("scanr", "checkr", True), ("movl", "checkl", False), ("movr", "checkr", False)):
-        try:
-            fn = ast.fn(OPS, name)["node"]
-        except Missing as m:
-            for r in ("PROBE-DIR", "UNSAFE-TWIN"):
-                if r in rules:
-                    res.missing(r, m)
-            continue
-        w = where(OPS, fn, name)
-        ps = [p["pat"]["name"] for p in fn["sig"]["inputs"] if p["t"] == "Arg" and p["pat"]["t"] == "PIdent"]
-        env0 = {"__v_cxt": ps[0], "__v_mem": ps[1], "__v_ip": ps[2], "__v_r0": ps[3], "__v_r1": ps[4]} if len(ps) == 5 else {}
-        if looped:
-            pat = ("let __v_cond = (*__v_ip.add(1)).off; let __v_shift = (*__v_ip.add(2)).off; "
-                   "while *__v_mem.offset(__v_cond) != C::ZERO { " + MOVE + " } noop(__v_cxt, __v_mem, __v_ip.add(3), __v_r0, __v_r1)")
-        else:
-            pat = "let __v_shift = (*__v_ip.add(1)).off; " + MOVE + " noop(__v_cxt, __v_mem, __v_ip.add(2), __v_r0, __v_r1)"
-        b_ = pm.match_stmts(fn["body"]["stmts"], pat, env0)
-        if "UNSAFE-TWIN" in rules:
-            res.check(b_ is not None, "UNSAFE-TWIN", f"{OPS}|{name}|twin", w,
-                      f"{name} is not the checked/unchecked twin template: operand words read into locals, then "
-                      + ("one `while *mem.offset(cond) != C::ZERO` around " if looped else "")
-                      + "`if SAFE { mem = check?(cxt, mem.wrapping_offset(shift)) } else { mem = mem.offset(shift) }`, then the continuation "
-                      "(the unchecked variant must be the checked one minus the probe: same loop condition, same shift)")
-        if "PROBE-DIR" in rules:
-            got = b_.get("__v_chk") if b_ else None
-            res.check(got == chk, "PROBE-DIR", f"{OPS}|{name}|probe", w,
-                      f"{name} moves {'left' if chk == 'checkl' else 'right'} but probes with {got}" if got else f"{name}: probe call not found (see UNSAFE-TWIN)")
+    import scanops
+    scanops.run_scan_effect(res, ast, OPS, rules=tuple(r for r in ("UNSAFE-TWIN", "PROBE-DIR") if r in rules))
     # ---- checkers
     for name, edge in (("checkl", "min_accessed"), ("checkr", "max_accessed")):
         try:
